@@ -67,7 +67,8 @@ class BaseServer:
             # future one would outlive the nonce record and could be replayed
             if self.EXPIRY_TIME and abs(time.time() - timestamp) > self.EXPIRY_TIME:
                 raise InvalidRequestError('Invalid "oauth_timestamp" value')
-        except (ValueError, TypeError) as exc:
+        except (ValueError, TypeError, OverflowError) as exc:
+            # OverflowError: an integer too large to compare with the clock
             raise InvalidRequestError('Invalid "oauth_timestamp" value') from exc
 
         if not nonce:
